@@ -79,6 +79,7 @@ type OpResult struct {
 	NPages     int            `json:"npages,omitempty"`
 	Pages      []PageInfo     `json:"pages,omitempty"`
 	PageWords  [][]string     `json:"page_words,omitempty"`  // words drawn per page, in call order
+	PageLines  [][]LineRec    `json:"page_lines,omitempty"`  // words drawn per page grouped by baseline, top to bottom
 	Texts      []TextCall     `json:"texts,omitempty"`       // Detail only
 	Violations []Violation    `json:"violations,omitempty"`  // C14 monitor
 	Anchors    [][]string     `json:"anchors,omitempty"`     // names per page
@@ -92,6 +93,11 @@ type OpResult struct {
 	// layout
 	LayoutWords [][]string `json:"layout_words,omitempty"` // words of TextBoxes per page (tree order)
 	PageGeom    []PageGeom `json:"page_geom,omitempty"`
+}
+
+type LineRec struct {
+	Y     float64  `json:"y"`
+	Words []string `json:"w"`
 }
 
 type PageGeom struct {
